@@ -2010,7 +2010,11 @@ class CParser:
                 coord,
             )
 
-        self._parse_error("Invalid expression", self.clex.filename)
+        tok = self._peek()
+        self._parse_error(
+            "Invalid expression",
+            self._tok_coord(tok) if tok is not None else self.clex.filename,
+        )
 
     # BNF: offsetof_member_designator : identifier_or_typeid
     #                                ('.' identifier_or_typeid | '[' expression ']')*
